@@ -39,13 +39,13 @@ MC_INVS = {
     "C02": {"T3Tag": ["TypeOK", "Atomic"], "T4Tag": ["TypeOK", "Atomic", "FreshOk"]},
     "C03": {"T3Tag": ["TypeOK", "Confined"], "T4Tag": ["TypeOK", "Confined"]},
 }
-MC_FLAGS = {"C01": dict(WithCut="FALSE", WithFormat="FALSE"),
-            "C02": dict(WithCut="TRUE", WithFormat="FALSE"),
-            "C03": dict(WithCut="FALSE", WithFormat="TRUE")}
+MC_FLAGS = {"C01": dict(WithCut="FALSE", WithFormat="FALSE", WithOutage="FALSE"),
+            "C02": dict(WithCut="TRUE", WithFormat="FALSE", WithOutage="TRUE"),
+            "C03": dict(WithCut="FALSE", WithFormat="TRUE", WithOutage="FALSE")}
 WITNESSES = {
     "C01": {"T3Tag": ["W_Rejected", "W_Refused", "W_Batches", "W_Full", "W_Recover", "W_EmptyMsg", "W_OtherSystem"],
             "T4Tag": ["W_Single", "W_Multi", "W_Rejected", "W_Refused", "W_Full", "W_TwoDigit"]},
-    "C02": {"T3Tag": ["W_CutOld", "W_CutNotReadable", "W_CutNew"],
+    "C02": {"T3Tag": ["W_CutOld", "W_CutNotReadable", "W_CutNew", "W_FailedMidway"],
             "T4Tag": ["W_CutOld", "W_CutEmpty", "W_CutNew"]},
     "C03": {"T3Tag": ["W_FormatWipe", "W_Full"], "T4Tag": ["W_Wipe", "W_Full"]},
 }
@@ -92,7 +92,7 @@ class EmuT3T(object):
     examples/tagtool.py `emulate` does), behind a loop-back: exchange(cmd) = emu.process_command(cmd).
     Same interface as SimT3T.  The command log is taken with the simulator's independent parser."""
 
-    def __init__(self, attr, data=b"", nblocks=None, other=b"\x5A" * 32, cut_after=None, fill=0):
+    def __init__(self, attr, data=b"", nblocks=None, other=b"\x5A" * 32, cut_after=None, fill=0, outage=None):
         attr = bytes(attr)
         nmaxb = int.from_bytes(attr[3:5], "big")
         nblocks = nmaxb if nblocks is None else nblocks
@@ -128,6 +128,7 @@ class EmuT3T(object):
         self.emu.add_service(0x000B, reader(self.mem), lambda *a: False)
         self.emu.add_service(0x1009, reader(self.oth), writer(self.oth))
         self.cut_after = cut_after
+        self.outage, self.nwframes = outage, 0            # transient outage, see SimT3T
         self.nwrites = 0
         self.log, self.reads, self.breaches = [], [], []
         self.powered = True
@@ -135,6 +136,7 @@ class EmuT3T(object):
     def power_on(self):
         self.powered = True
         self.cut_after = None
+        self.outage = None
         self.reads = []
         self.read_sys = []
 
@@ -162,6 +164,12 @@ class EmuT3T(object):
                 self.powered = False
                 return None
             err, scs, lst, rest = parse_lists(frame[10:])
+            self.nwframes += 1
+            if self.outage is not None and self.outage[0] <= self.nwframes - 1 < sum(self.outage):
+                if lst is not None:
+                    self.log.append(dict(drop=True, sys=self.system_of(frame[2:10]), sc=[sc for sc, n in lst],
+                                         blocks=[n for sc, n in lst], data=bytes(rest), ok=False))
+                return None
             if lst is not None and len(rest) == 16 * len(lst):
                 rec = dict(sys=self.system_of(frame[2:10]), sc=[sc for sc, n in lst], blocks=[n for sc, n in lst],
                            data=bytes(rest), ok=False)
@@ -251,11 +259,13 @@ def t3_build(case):
     if L.get("lazy"):               # data blocks generated on demand (tags with up to 65535 blocks)
         nbw_phys = min(L["nbw"], 12 if nblocks > 255 else 13)
         return SimT3T(attr, nblocks=nblocks, other=other, cut_after=case.get("cut"), gen=L.get("gen", 5),
+                      outage=case.get("outage"),
                       nbr_phys=max(1, min(L["nbr"], 15)), nbw_phys=nbw_phys, **multi)
     old = rnd_bytes(case["seed"] * 7 + 1, oldlen)
     fill = rnd_bytes(case["seed"] * 7 + 2, nblocks * 16 - len(old)) if L.get("dirty", True) else bytes(nblocks * 16 - len(old))
     cls = EmuT3T if case["kind"] == "emu" else SimT3T
-    t = cls(attr, data=old + fill, nblocks=nblocks, other=other, cut_after=case.get("cut"), **multi)
+    t = cls(attr, data=old + fill, nblocks=nblocks, other=other, cut_after=case.get("cut"),
+            outage=case.get("outage"), **multi)
     return t
 
 
@@ -316,7 +326,8 @@ def run_t3(case):
             res = classify_exc(e)
     if op != "read":
         for w in t.log:
-            ev.append(dict(a="W", sysn=w["sys"], sc=w["sc"], bl=w["blocks"], data=list(w["data"]), ok=w["ok"]))
+            ev.append(dict(a="Drop" if w.get("drop") else "W", sysn=w["sys"], sc=w["sc"], bl=w["blocks"],
+                           data=list(w["data"]), ok=w["ok"]))
         if not t.powered:
             ev.append(dict(a="Cut"))
         ev.append(dict(a="Ret", res=res, cap=cap))
@@ -662,6 +673,19 @@ def gen_cases(pid, tier, seed):
                 c["cut"] = k
                 c["id"] = "%s-cut%d" % (base["id"], k)
                 cases.append(c)
+            if kind in ("t3", "emu"):
+                # transient outage: the write frames k..k+r-1 are lost, later ones reach the tag again; r = the
+                # retry budget of send_cmd_recv_rsp (3: one command lost for good) and r + 1, smaller r recover
+                nf = info["ncmds"]
+                ks = sorted({0, 1, nf // 2, nf - 2, nf - 1} & set(range(nf)))
+                if full:
+                    ks = list(range(nf)) if nf <= 12 else sorted(set(ks) | set(rnd.sample(range(nf), 8)))
+                for k in ks:
+                    for r in ((3, 4) if not full else (1, 2, 3, 4, 6)):
+                        c = dict(base)
+                        c["outage"] = [k, r]
+                        c["id"] = "%s-out%d.%d" % (base["id"], k, r)
+                        cases.append(c)
     elif pid == "C03":
         t3l = [T3_LAYOUTS[i] for i in (0, 2, 3, 5, 9)]
         for kind, Ls in (("t3", t3l + r3), ("emu", EMU_LAYOUTS + re)):
